@@ -90,16 +90,22 @@ class Tuner(EqualizerTuner):
     def __init__(self, ops, tag_of, journal, failing):
         self.ops, self.tag_of, self.journal, self.failing = ops, tag_of, journal, failing
         self.created = []
+        self.failure = lambda: KeyError('no tuning')      # what a category without tuning raises (set by the scenario)
+        self.hang = None          # (recording id, sim): that replay hangs past the timeout (dedicated-process runs only)
 
     def create_category_tuning(self, category):
         self.created.append(category)
         if category in self.failing:
-            raise KeyError('no tuning for %s' % category)
+            raise self.failure()
         ops, tag_of, journal = self.ops, self.tag_of, self.journal
         token = 'tuning-%s-%d' % (category, len(self.created))
 
+        tuner = self
+
         def playback_function(recording):
             journal.append(('play', category, recording.id, token))
+            if tuner.hang is not None and tuner.hang[0] == recording.id:
+                tuner.hang[1].sleep(1e7)
             ops[category]().execute(tag_of[recording.id])
 
         def extractor(outputs):
@@ -160,6 +166,12 @@ def scenario(run, tape, clock, store):
     journal = []
     failing = set(c for c in S.CATEGORIES if tape.draw(5) == 4)
     tuner = Tuner(ops, tag_of, journal, failing)
+    fail_kind = tape.choice(['message', 'message', 'no_arguments', 'not_implemented', 'custom'])
+    tuner.failure = {'message': lambda: KeyError('no tuning for this category'), 'no_arguments': lambda: KeyError(),
+                     'not_implemented': lambda: NotImplementedError(), 'custom': lambda: dynclasses.ErrPayload()}[fail_kind]
+    tuner.failure_class = {'message': KeyError, 'no_arguments': KeyError, 'not_implemented': NotImplementedError, 'custom': dynclasses.ErrPayload}[fail_kind]
+    if fail_kind != 'message' and failing:
+        run.probe('tuner_fails_without_a_message')
     explicit = tape.draw(2) == 1
     dedicated = tape.draw(6) == 5
     cas2 = store.open(read_only=True)
@@ -259,6 +271,12 @@ def scenario(run, tape, clock, store):
         run.probe('dedicated_process_sample')
         sim = Sim(tape, run, preempt_p=0.0, prim_p=tape.choice([0.0, 0.2]), target_files=[E.TARGET], max_steps=300000, max_time=1e5)
         mp = FakeMP(sim, run, tape)
+        if tape.draw(2) == 1:
+            pool = [r for c in expected_keys if c not in failing for r in expected_by_cat.get(c, [])]
+            if pool:
+                # one replay hangs past the timeout while the other categories' runs are under way: only that recording fails
+                tuner.hang = (tape.choice(pool), sim)
+                run.probe('a_replay_hangs_while_other_categories_run')
         with seams.rebind([(EQ.__name__, 'mp', mp), (EQ.__name__, 'os', mp.os_proxy(_real_os)), (EQ.__name__, 'time', sim.time)]):
             try:
                 sim.run_main(drive)
@@ -280,7 +298,7 @@ def scenario(run, tape, clock, store):
         res = results.get(c)
         if c in failing:
             run.probe('tuner_failed')
-            run.check(isinstance(res, KeyError), 'failing_tuner_yields_its_error', 'tuner-error-not-reported', lambda: 'category %s has a failing tuner but its result is %r' % (c, res))
+            run.check(isinstance(res, tuner.failure_class), 'failing_tuner_yields_its_error', 'tuner-error-not-reported', lambda: 'category %s has a failing tuner but its result is %r' % (c, res))
             played = [j for j in journal if j[0] == 'play' and j[1] == c]
             run.check(not played, 'failing_tuner_yields_its_error', 'played-without-tuning', 'recordings of a category without tuning were played')
             continue
@@ -301,6 +319,9 @@ def scenario(run, tape, clock, store):
             run.check(ok, 'each_selected_once', 'lookup-selection-differs', lambda: 'category %s compared %s, complete recordings of it are %s (limit %s)' % (c, got_ids, exp, limit))
         for comp in res:
             name = E.status_name(comp)
+            if tuner.hang is not None and comp.recording_id == tuner.hang[0]:
+                run.check(name == 'EqualizerFailure', 'verdict', 'hung-replay-not-reported:%s' % name, lambda: 'the replay of %s hung past the timeout but compared as %s' % (comp.recording_id, name))
+                continue
             run.check(name == 'Equal', 'verdict', 'not-equal:%s' % name, lambda: 'recording %s of %s on unchanged code compared as %s (%s)' % (comp.recording_id, c, name, comp.comparator_status.message))
     # routing journal: every play / extract / compare belongs to the recording's own category and tuning
     plays = [j for j in journal if j[0] == 'play']
